@@ -160,9 +160,55 @@ def fuzz_variants(seed, tag, n, utils, JT, fuzz_crash, crashes, stats, extra=Non
             continue
         o.see("src.pkg", t1, "fresh")
         if extra:
-            extra(o, tr, p)
+            try:
+                extra(o, tr, p)
+            except Exception as e:      # noqa: BLE001  (Program.get_types draws random numbers: a malformed tree can
+                k = "later translation: " + type(e).__name__      # be rejected in one translation and not in another)
+                fuzz_crash[k] = fuzz_crash.get(k, 0) + 1
+                continue
         out.append(o)
     return out
+
+
+def witness_super_literal():
+    """class A(f: String); final class B : A("a  b") -- the program of Properties_C12_java.literal_in_super_args_altered_refuted
+    and of Properties_C11_java.text_depends_on_dirty_state_refuted"""
+    from src.ir import ast, types as tp, java_types as jt, context as ctx
+    p = ast.Program(ctx.Context(), "java")
+    p.add_declaration(ast.ClassDeclaration("A", [], ast.ClassDeclaration.REGULAR, [ast.FieldDeclaration("f", jt.String)], [],
+                                           is_final=False))
+    p.add_declaration(ast.ClassDeclaration("B", [ast.SuperClassInstantiation(tp.SimpleClassifier("A"), [ast.StringConstant("a  b")])],
+                                           ast.ClassDeclaration.REGULAR, [], [], is_final=True))
+    return p
+
+
+def probe_dirty_object(utils, JT):
+    """a translation that raises in the middle (here: a type the translator cannot name) leaves the object dirty --
+    _reset_state runs only at the end of a successful visit_program -- and the next text differs from a fresh object's.
+    Recorded in the coverage (hephaestus does not reuse a translator after an exception)."""
+    from src.ir import ast, types as tp, java_types as jt, context as ctx
+    bad = ast.Program(ctx.Context(), "java")
+    bad.add_declaration(ast.FunctionDeclaration("h", [], jt.Integer, ast.Block([ast.New(tp.WildCardType(), [])], True),
+                                                ast.FunctionDeclaration.FUNCTION))
+    tr = JT(None, OPTS)
+    try:
+        utils.translate_program(tr, bad)
+        return dict(aborted=False)
+    except Exception as e:      # noqa: BLE001
+        exc = type(e).__name__
+    good = witness_super_literal()
+    t_dirty = utils.translate_program(tr, good)
+    t_fresh = utils.translate_program(JT(None, OPTS), good)
+    t_again = utils.translate_program(tr, good)
+    return dict(aborted=True, exception=exc, next_text_differs_from_fresh_object=t_dirty != t_fresh,
+                text_after_one_more_translation_is_fresh_again=t_again == t_fresh,
+                first_difference=P.first_diff(t_dirty, t_fresh))
+
+
+def probe_super_literal(utils, JT):
+    """the real text of the witness: the literal "a  b" is printed as "a b" """
+    t = utils.translate_program(JT(None, OPTS), witness_super_literal())
+    return dict(literal_in_program='"a  b"', printed_unchanged='super("a  b")' in t, printed_collapsed='super("a b")' in t)
 
 
 def run_part(rep, tier, seed, pid):
@@ -322,6 +368,7 @@ def run_c11(rep, quick, seed, utils, JT):
     C.clean_cases("pj11")
     return dict(programs=len(variants), directed_trees=len(fuzz), directed_trees_rejected_by_impl=fuzz_crash,
                 evaluations=compared, model_impl_mismatches=mism,
+                probe_object_reused_after_an_aborted_translation=probe_dirty_object(utils, JT),
                 distinct_texts=len({t for o in variants + fuzz for tx in o.texts.values() for t in tx}),
                 java_translations=ntrans + 2 * len(fuzz), history_dependent_variants=hist_viol, model_history_replayed=hist_ok,
                 program_snapshots_changed=len(mutated) + len(ser_changed), snapshot_change_kinds=nmut,
@@ -452,6 +499,7 @@ def run_c12(rep, quick, seed, utils, JT):
         rep.violation(*a, **k)
     C.clean_cases("pj12")
     return dict(programs=len(variants), directed_trees=len(fuzz), directed_trees_rejected_by_impl=fuzz_crash,
+                probe_literal_in_super_arguments=probe_super_literal(utils, JT),
                 evaluations=st["compared"] + fst["compared"], model_impl_mismatches=st["mismatches"] + fst["mismatches"],
                 java=st, directed=fst, report_fields=REPORT_FIELDS, serialiser=stats,
                 generation_abandoned_after_10s=[list(g) for g in gen_timeouts], exceptions=len(crashes),
